@@ -58,8 +58,8 @@ def run(ctx):
         env["VERIF_REPLAY"] = os.path.abspath(ctx.replay)
     else:
         env["VERIF_CORPUS"] = os.path.join(os.path.dirname(os.path.dirname(os.path.abspath(__file__))), "harness", "corpus", "C10")
-        env["VERIF_SETS"] = 320 if ctx.thorough else 28
-        env["VERIF_MAXPERMS"] = 240 if ctx.thorough else 60
+        env["VERIF_SETS"] = 140 if ctx.thorough else 28
+        env["VERIF_MAXPERMS"] = 200 if ctx.thorough else 60
     rc, log, out = ctx.run_harness(binary, "TestVerifC10", env, timeout=3000)
     if rc != 0:
         ctx.oblige("harness-runs", False, log[-1500:])
